@@ -1318,9 +1318,8 @@ def sec_numpy_bits(st):
             if r[0] == 'ok' and fpio.same_content(oa, r[1]):
                 continue
             if r[0] == 'err':
-                # an observation about the accepted TYPES of `bits` (the property speaks of its value): noted, or KNOWN-FINDING once listed
-                fpio.outside_domain(st.ctx, 'rt:%s:numpy-integer-bits' % rep, 'the %s round trip raises when `bits` is a numpy integer (to_rdkit: Boost.Python ArgumentError from the '
-                                    'RDKit constructor), although the fingerprint converts through the other representations' % rep, dict(pl, result=r[1]))
+                # repaired by fix: 6635928 (bits stored as a Python int): a raise on ANY of the six routes is a failure again
+                st.prop_fail(rep, 'the %s round trip raises when `bits` is a numpy integer' % rep, dict(pl, result=r[1]))
             else:
                 st.prop_fail(rep, 'round trip of a fingerprint whose bits is a numpy integer gives another fingerprint', dict(pl, result=_jr(r, xobs_json)))
 
